@@ -513,8 +513,11 @@ def fresh_value(fd, row, name, kw):
 def replica_values(fd, row, entries, kw):
     """all requested variables from ONE fresh AurelCore on this step's
     inputs, requested in over_time's order (custom first), each value copied
-    as soon as it is obtained"""
-    rel = aurel.AurelCore(fd, verbose=False, **_nocache(kw))
+    as soon as it is obtained. It shares over_time's cache settings: in the
+    wide pool a value may legitimately depend (at truncation level) on which
+    branch the cache state selects, so the replica must evict as the step's
+    own instance does."""
+    rel = aurel.AurelCore(fd, verbose=False, **kw)
     for k, v in row.items():
         rel.data[k] = np.array(v, copy=True) if isinstance(v, np.ndarray) \
             else v
